@@ -264,13 +264,28 @@ func (d *dealer) unregister(callee *wamp.Session, msg *wamp.Unregister) {
 }
 
 // call invokes a registered remote procedure.
-func (d *dealer) call(caller *wamp.Session, msg *wamp.Call) {
+//
+// An error is returned if the caller violated the protocol by using a feature
+// that it did not announce. The caller of this method must then end the
+// session; this is not done from inside the dealer, since closing the peer
+// there would leave the session in the realm with a closed peer.
+func (d *dealer) call(caller *wamp.Session, msg *wamp.Call) error {
 	if caller == nil || msg == nil {
 		panic("dealer.Call with nil session or message")
+	}
+	if isInProgress, _ := msg.Options[wamp.OptProgress].(bool); isInProgress &&
+		!caller.HasFeature(wamp.RoleCaller, wamp.FeatureProgCallInvocations) {
+		return errors.New("peer is trying to use Progressive Call Invocations while it was not " +
+			"announced during HELLO handshake")
+	}
+	if pptScheme, _ := msg.Options[wamp.OptPPTScheme].(string); pptScheme != "" &&
+		!caller.HasFeature(wamp.RoleCaller, wamp.FeaturePayloadPassthruMode) {
+		return ErrPPTNotSupportedByPeer
 	}
 	d.actionChan <- func() {
 		d.syncCall(caller, msg)
 	}
+	return nil
 }
 
 // cancel actively cancels a call that is in progress.
@@ -322,9 +337,17 @@ func (d *dealer) cancel(caller *wamp.Session, msg *wamp.Cancel) {
 // If the RESULT could not be sent to the caller because the caller was blocked
 // (send queue full), then retry sending until timeout. If timeout while trying
 // to send RESULT, then cancel call.
-func (d *dealer) yield(callee *wamp.Session, msg *wamp.Yield) {
+//
+// An error is returned if the callee violated the protocol by using a feature
+// that it did not announce. The caller of this method must then end the
+// session, which also cancels the calls that the callee was serving.
+func (d *dealer) yield(callee *wamp.Session, msg *wamp.Yield) error {
 	if callee == nil || msg == nil {
 		panic("dealer.Yield with nil session or message")
+	}
+	if pptScheme, _ := msg.Options[wamp.OptPPTScheme].(string); pptScheme != "" &&
+		!callee.HasFeature(wamp.RoleCallee, wamp.FeaturePayloadPassthruMode) {
+		return ErrPPTNotSupportedByPeer
 	}
 
 	var again bool
@@ -363,6 +386,7 @@ func (d *dealer) yield(callee *wamp.Session, msg *wamp.Yield) {
 			delay *= 2
 		}
 	}
+	return nil
 }
 
 // error handles an invocation error returned by the callee.
@@ -683,17 +707,6 @@ func (d *dealer) syncCall(caller *wamp.Session, msg *wamp.Call) {
 	details := wamp.Dict{}
 	details[wamp.OptProgress] = isInProgress
 
-	if isInProgress && !caller.HasFeature(wamp.RoleCaller, wamp.FeatureProgCallInvocations) {
-		// The Caller did not announce the progressive call invocations feature during the HELLO handshake.
-		abortMsg := wamp.Abort{Reason: wamp.ErrProtocolViolation}
-		abortMsg.Details = wamp.Dict{}
-		abortMsg.Details[wamp.OptMessage] = "Peer is trying to use Progressive Call Invocations while it was not " +
-			"announced during HELLO handshake"
-		d.trySend(caller, &abortMsg)
-		caller.Close()
-		return
-	}
-
 	// If it is a simple one-time call or first call of progressive call then
 	// we need to init call-invocation-runtime otherwise we must reuse
 	// runtime-data. E.g. not to generate new ID
@@ -757,17 +770,7 @@ func (d *dealer) syncCall(caller *wamp.Session, msg *wamp.Call) {
 		// @see https://wamp-proto.org/wamp_latest_ietf.html#name-payload-passthru-mode
 		if pptScheme, _ := invk.options[wamp.OptPPTScheme].(string); pptScheme != "" {
 
-			// Let's check: was ppt feature announced by caller?
-			if !caller.HasFeature(wamp.RoleCaller, wamp.FeaturePayloadPassthruMode) {
-				// It's protocol violation, so we need to abort connection.
-				abortMsg := wamp.Abort{Reason: wamp.ErrProtocolViolation}
-				abortMsg.Details = wamp.Dict{}
-				abortMsg.Details[wamp.OptMessage] = "Peer is trying to use Payload PassThru Mode while it was not " +
-					"announced during HELLO handshake"
-				d.trySend(caller, &abortMsg)
-				caller.Close()
-				return
-			}
+			// That the caller announced the ppt feature was checked in call().
 
 			// Let's check if callee supports this feature.
 			if !callee.HasFeature(wamp.RoleCallee, wamp.FeaturePayloadPassthruMode) {
@@ -1115,25 +1118,7 @@ func (d *dealer) syncYield(callee *wamp.Session, msg *wamp.Yield, progress, canR
 	// @see https://wamp-proto.org/wamp_latest_ietf.html#name-payload-passthru-mode
 	if pptScheme, _ := msg.Options[wamp.OptPPTScheme].(string); pptScheme != "" {
 
-		// Let's check: was ppt feature announced by callee?
-		if !callee.HasFeature(wamp.RoleCallee, wamp.FeaturePayloadPassthruMode) {
-			// Notify caller that CALL was erred.
-			d.trySend(caller, &wamp.Error{
-				Type:    msg.MessageType(),
-				Request: msg.Request,
-				Details: wamp.Dict{
-					"error": ErrPPTNotSupportedByPeer.Error(),
-				},
-				Error: wamp.ErrFeatureNotSupported,
-			})
-			// Protocol violation, so need to abort connection.
-			abortMsg := wamp.Abort{Reason: wamp.ErrProtocolViolation}
-			abortMsg.Details = wamp.Dict{}
-			abortMsg.Details[wamp.OptMessage] = ErrPPTNotSupportedByPeer.Error()
-			d.trySend(callee, &abortMsg)
-			callee.Close()
-			return false
-		}
+		// That the callee announced the ppt feature was checked in yield().
 
 		// Check if caller supports this feature.
 		if !caller.HasFeature(wamp.RoleCaller, wamp.FeaturePayloadPassthruMode) {
